@@ -14,13 +14,13 @@ import (
 	"github.com/kklash/bitcoinlib/bip32"
 	"github.com/kklash/bitcoinlib/ecc"
 	"github.com/kklash/bitcoinlib/script"
+	"github.com/kklash/bitcoinlib/tx"
 	"github.com/kklash/ekliptic"
 )
 
 var extraGens = map[string][]func(*Runner){}
 
 func regExtra(prop string, f func(*Runner)) { extraGens[prop] = append(extraGens[prop], f) }
-
 
 // sqrtModP returns a square root of c modulo p (p ≡ 3 mod 4), or nil.
 func sqrtModP(c *big.Int) *big.Int {
@@ -251,6 +251,135 @@ func init() {
 			r.Do("bip38.dec", []string{k, sx(pass)}, "bip38-ec-right-wrong-right", true, "")
 			r.Do("bip38.dec", []string{k, sx(pass + "x")}, "bip38-ec-right-wrong-right", true, "wrong passphrase directly after a successful decryption")
 			r.Do("bip38.dec", []string{k, sx(pass)}, "bip38-ec-right-wrong-right", true, "")
+		}
+	})
+}
+
+// ---- second round: state kept between calls ----------------------------------------------------
+
+func init() {
+	// C02: identifiers after a failed serialisation (a pooled or reused buffer must not leak into
+	// the next hash), and the same for Bytes()
+	reg("c02.id.after.error", GoOnly, func(a []string) (string, []string) {
+		t, err := tx.FromBytes(unhx(a[0]))
+		if err != nil {
+			return "err", nil
+		}
+		var direct []string
+		want := func(w bool) string { id, _ := t.Id(w); return id }
+		w0, w1 := want(false), want(true)
+		enc := hx(t.Bytes())
+		// a transaction that passes the nil checks of canSerialize but fails part-way through
+		bad := &tx.Tx{Version: 2, Inputs: []*tx.Input{{PrevOut: &tx.PrevOut{}, Script: []byte{1}}, {PrevOut: &tx.PrevOut{}, Script: nil}}, Outputs: []*tx.Output{{Script: []byte{}}}}
+		if _, err := bad.Id(false); err == nil {
+			direct = append(direct, "Id of an unserialisable transaction succeeded")
+		}
+		_ = bad.Bytes()
+		bad2 := &tx.Tx{Version: 2, Inputs: []*tx.Input{{PrevOut: &tx.PrevOut{}, Script: []byte{}}}, Outputs: []*tx.Output{{Script: nil}}}
+		_, _ = bad2.Hash(true)
+		if want(false) != w0 || want(true) != w1 {
+			direct = append(direct, "txid / wtxid of a transaction changed after a failed serialisation of another transaction")
+		}
+		if hx(t.Bytes()) != enc {
+			direct = append(direct, "Bytes() of a transaction changed after a failed serialisation of another transaction")
+		}
+		// against the independent definition
+		h1 := sha256.Sum256(t.BytesNoWitness())
+		h2 := sha256.Sum256(h1[:])
+		for i, j := 0, 31; i < j; i, j = i+1, j-1 {
+			h2[i], h2[j] = h2[j], h2[i]
+		}
+		if fmt.Sprintf("%x", h2) != want(false) {
+			direct = append(direct, "txid differs from reversed double SHA-256 of the stripped serialisation")
+		}
+		return "ok", direct
+	})
+	regExtra("C02", func(r *Runner) {
+		for i := 0; i < r.N(200, 5000); i++ {
+			t, b := r.genTx(3, 3)
+			r.Do("c02.id.after.error", []string{hx(t.Bytes())}, "id-after-failed-serialisation", b, "")
+		}
+	})
+
+	// C03: the digest of a transaction object that was edited in place between two calls must be that
+	// of the edited transaction (no stale cached intermediate hashes); compared with a freshly parsed copy
+	reg("c03.seq.inplace", GoOnly, func(a []string) (string, []string) {
+		t, err := tx.FromBytes(unhx(a[0]))
+		if err != nil || len(t.Inputs) == 0 {
+			return "err", nil
+		}
+		n, _ := strconv.Atoi(a[1])
+		if n >= len(t.Inputs) {
+			n = 0
+		}
+		sc := unhx(a[2])
+		ht64, _ := strconv.ParseUint(a[3], 10, 32)
+		ht := uint32(ht64)
+		var direct []string
+		cmp := func(stage string) {
+			fresh, err := tx.FromBytes(t.Bytes())
+			if err != nil {
+				return
+			}
+			g1, e1 := t.SignatureHashForWitnessInput(n, sc, ht, 1000)
+			f1, e2 := fresh.SignatureHashForWitnessInput(n, sc, ht, 1000)
+			if (e1 == nil) != (e2 == nil) || g1 != f1 {
+				direct = append(direct, "BIP143 digest of the edited object differs from that of a freshly parsed copy after "+stage)
+			}
+			g2, e3 := t.SignatureHashForInput(n, sc, ht)
+			f2, e4 := fresh.SignatureHashForInput(n, sc, ht)
+			if (e3 == nil) != (e4 == nil) || g2 != f2 {
+				direct = append(direct, "legacy digest of the edited object differs from that of a freshly parsed copy after "+stage)
+			}
+		}
+		cmp("no edit")
+		if len(t.Outputs) > 0 {
+			t.Outputs[0].Value ^= 0x55
+			cmp("an output value edit")
+			t.Outputs[len(t.Outputs)-1].Script = append([]byte{0x51}, t.Outputs[len(t.Outputs)-1].Script...)
+			cmp("an output script edit")
+		}
+		t.Inputs[0].Sequence ^= 1
+		cmp("a sequence edit")
+		t.Inputs[len(t.Inputs)-1].PrevOut.Index ^= 1
+		cmp("an outpoint edit")
+		t.Locktime++
+		cmp("a locktime edit")
+		return "ok", direct
+	})
+	regExtra("C03", func(r *Runner) {
+		for i := 0; i < r.N(150, 4000); i++ {
+			t, _ := r.genTx(3, 3)
+			sc, parse, _ := r.genScriptCode()
+			if !parse {
+				continue
+			}
+			ht := []uint32{1, 2, 3, 0x81, 0x82, 0x83}[r.rng.Intn(6)]
+			r.Do("c03.seq.inplace", []string{hx(t.Bytes()), strconv.Itoa(r.rng.Intn(len(t.Inputs))), hx(sc), strconv.FormatUint(uint64(ht), 10)}, "digest-after-in-place-edit", true, "")
+		}
+		// SIGHASH_SINGLE far down a transaction with >= 253 inputs and outputs (count written as a compact size)
+		for _, n := range []int{253, 300} {
+			t, _ := r.genTx(1, 1)
+			for len(t.Inputs) < n {
+				po := &tx.PrevOut{Index: r.u32()}
+				copy(po.Hash[:], r.bytesN(32))
+				t.Inputs = append(t.Inputs, &tx.Input{PrevOut: po, Script: []byte{}, Sequence: r.u32()})
+			}
+			for len(t.Outputs) < n {
+				t.Outputs = append(t.Outputs, &tx.Output{Value: r.u64(), Script: r.bytesN(r.rng.Intn(3))})
+			}
+			t.Witnesses = nil
+			enc := hx(t.Bytes())
+			for _, idx := range []int{0, 251, 252, 253, n - 1} {
+				if idx >= n {
+					continue
+				}
+				for _, ht := range []uint32{3, 0x83, 1, 2} {
+					args := []string{enc, strconv.Itoa(idx), "51", strconv.FormatUint(uint64(ht), 10)}
+					r.Do("sighash.legacy", args, "legacy-many-inputs", true, "")
+					r.Do("sighash.legacy.spec", args, "legacy-many-inputs-spec", true, "")
+				}
+			}
 		}
 	})
 }
